@@ -26,6 +26,8 @@ ENTITIES = {ord("&"): ("HTMLAnd", "&amp;"), ord("<"): ("HTMLLess", "&lt;"), ord(
 T = "Qentem::TemplateCore::"
 
 
+META["explanation"] += " " + 'FX-sink also counts `*stream_ << x` (a plain binary operator on the dependent stream type in the pattern view) as a write to the stream.'
+
 def stream_effects(f):
     """[(node id, kind, text)] of everything that can write to the stream member in a renderer"""
     out = []
@@ -53,6 +55,11 @@ def stream_effects(f):
         elif n["k"] in ("CompoundAssignOperator", "BinaryOperator") and n.get("op", "").endswith("=") and n["op"] not in ("==", "!=", "<=", ">="):
             if any(f.nodes[x].get("n") == "stream_" for x in f.walk(n["ch"][0])):
                 out.append((i, "assign", f.text(i)))
+        elif n["k"] == "BinaryOperator" and n.get("op") == "<<":
+            # *stream_ << x on a dependent stream type is a plain binary operator in the pattern view
+            if any(f.nodes[x].get("n") == "stream_" for x in f.walk(n["ch"][0])) and \
+                    not any(f.nodes[p_]["k"] == "BinaryOperator" and f.nodes[p_].get("op") == "<<" and i in f.nodes[p_]["ch"][:1] for p_ in [f.parents().get(i)] if p_ is not None):
+                out.append((i, "insert", f.text(i)))
     return out
 
 
